@@ -254,6 +254,30 @@ def authstate_stateResponseImpl_GetStateEvents : List String := [
   "return s.stateEvents"
 ]
 
+def authstate_type_FederatedStateClient : List String := [
+  "type FederatedStateClient interface { LookupState(ctx context.Context, origin, s spec.ServerName, roomID, eventID string, roomVersion RoomVersion) (res StateResponse, err error) LookupStateIDs(ctx context.Context, origin, s spec.ServerName, roomID, eventID string) (res StateIDResponse, err error) }"
+]
+
+def authstate_type_FederatedStateProvider : List String := [
+  "type FederatedStateProvider struct { FedClient FederatedStateClient Origin spec.ServerName Server spec.ServerName RememberAuthEvents bool EventToAuthEventIDs map[string][]string AuthEventMap map[string]PDU }"
+]
+
+def authstate_type_StateIDResponse : List String := [
+  "type StateIDResponse interface { GetStateEventIDs() []string GetAuthEventIDs() []string }"
+]
+
+def authstate_type_StateProvider : List String := [
+  "type StateProvider interface { StateIDsBeforeEvent(ctx context.Context, event PDU) ([]string, error) StateBeforeEvent(ctx context.Context, roomVer RoomVersion, event PDU, eventIDs []string) (map[string]PDU, error) }"
+]
+
+def authstate_type_StateResponse : List String := [
+  "type StateResponse interface { GetAuthEvents() EventJSONs GetStateEvents() EventJSONs }"
+]
+
+def authstate_type_stateResponseImpl : List String := [
+  "type stateResponseImpl struct { authEvents EventJSONs stateEvents EventJSONs }"
+]
+
 def backfill__RequestBackfill : List String := [
   "func func(ctx context.Context, origin spec.ServerName, b BackfillRequester, keyRing JSONVerifier, roomID string, ver RoomVersion, fromEventIDs []string, limit int, userIDForSender spec.UserIDForSender) ([]PDU, error)",
   "if len(fromEventIDs) == 0 {",
@@ -291,6 +315,14 @@ def backfill__RequestBackfill : List String := [
   "}",
   "}",
   "return ReverseTopologicalOrdering(result, TopologicalOrderByPrevEvents), lastErr"
+]
+
+def backfill_type_BackfillClient : List String := [
+  "type BackfillClient interface { Backfill(ctx context.Context, origin, server spec.ServerName, roomID string, limit int, fromEventIDs []string) (Transaction, error) }"
+]
+
+def backfill_type_BackfillRequester : List String := [
+  "type BackfillRequester interface { StateProvider BackfillClient ServersAtEvent(ctx context.Context, roomID, eventID string) []spec.ServerName ProvideEvents(roomVer RoomVersion, eventIDs []string) ([]PDU, error) }"
 ]
 
 def load_AuthChainErr_Error : List String := [
@@ -382,6 +414,26 @@ def load_SignatureErr_Is : List String := [
 def load__NewEventsLoader : List String := [
   "func func(roomVer RoomVersion, keyRing JSONVerifier, stateProvider StateProvider, provider EventProvider, performSoftFailCheck bool) *EventsLoader",
   "return &EventsLoader{roomVer: roomVer, keyRing: keyRing, provider: provider, stateProvider: stateProvider, performSoftFailCheck: performSoftFailCheck}"
+]
+
+def load_type_AuthChainErr : List String := [
+  "type AuthChainErr struct{ err error }"
+]
+
+def load_type_AuthRulesErr : List String := [
+  "type AuthRulesErr struct{ err error }"
+]
+
+def load_type_EventLoadResult : List String := [
+  "type EventLoadResult struct { Event PDU Error error SoftFail bool }"
+]
+
+def load_type_EventsLoader : List String := [
+  "type EventsLoader struct { roomVer RoomVersion keyRing JSONVerifier provider EventProvider stateProvider StateProvider performSoftFailCheck bool }"
+]
+
+def load_type_SignatureErr : List String := [
+  "type SignatureErr struct{ err error }"
 ]
 
 def stateresolution__ResolveConflicts : List String := [
@@ -733,6 +785,18 @@ def stateresolution_stateResolver_resolveNormalBlock : List String := [
   "}",
   "}",
   "return block[0].event"
+]
+
+def stateresolution_type_conflictedEvent : List String := [
+  "type conflictedEvent struct { depth int64 eventIDSHA1 [sha1.Size]byte event PDU }"
+]
+
+def stateresolution_type_conflictedEventSorter : List String := [
+  "type conflictedEventSorter []conflictedEvent"
+]
+
+def stateresolution_type_stateResolver : List String := [
+  "type stateResolver struct { creates []PDU powerLevels []PDU joinRules []PDU thirdPartyInvites [][]PDU members [][]PDU others [][]PDU resolvedCreate PDU resolvedPowerLevels PDU resolvedJoinRules PDU resolvedThirdPartyInvites map[string]PDU resolvedMembers map[spec.SenderID]PDU result []PDU roomID string valid bool }"
 ]
 
 def stateresolutionv2__HeaderedReverseTopologicalOrdering : List String := [
@@ -1386,6 +1450,18 @@ def stateresolutionv2_stateResolverV2_wrapPowerLevelEventsForSort : List String 
   "return block"
 ]
 
+def stateresolutionv2_type_IsRejected : List String := [
+  "type IsRejected func(eventID string) bool"
+]
+
+def stateresolutionv2_type_TopologicalOrder : List String := [
+  "type TopologicalOrder int"
+]
+
+def stateresolutionv2_type_stateResolverV2 : List String := [
+  "type stateResolverV2 struct { allower *allowerContext authProvider *AuthEvents authEventMap map[string]PDU conflictedEventMap map[string]PDU powerLevelContents map[string]*PowerLevelContent powerLevelMainlinePos map[string]int resolvedCreate PDU createEvent PDU resolvedPowerLevels PDU resolvedJoinRules PDU resolvedThirdPartyInvites map[string]PDU resolvedMembers map[spec.SenderID]PDU resolvedOthers map[StateKeyTuple]PDU result []PDU isRejectedFn IsRejected isRejectedCache map[string]bool }"
+]
+
 def stateresolutionv2heaps__sortStateResV2ConflictedOtherHeap : List String := [
   "func func(a, b *stateResV2ConflictedOther) int",
   "if a.mainlinePosition < b.mainlinePosition {",
@@ -1454,6 +1530,22 @@ def stateresolutionv2heaps_stateResV2ConflictedPowerLevelHeap_Push : List String
   "*s = append(*s, x)"
 ]
 
-def functions : List String := ["authstate.go:FederatedStateProvider.StateBeforeEvent", "authstate.go:FederatedStateProvider.StateIDsBeforeEvent", "authstate.go:.CheckSendJoinResponse", "authstate.go:.CheckStateResponse", "authstate.go:.LineariseStateResponse", "authstate.go:.VerifyAuthRulesAtState", "authstate.go:.checkAllowedByAuthEvents", "authstate.go:stateResponseImpl.GetAuthEvents", "authstate.go:stateResponseImpl.GetStateEvents", "backfill.go:.RequestBackfill", "load.go:AuthChainErr.Error", "load.go:AuthChainErr.Is", "load.go:AuthRulesErr.Error", "load.go:AuthRulesErr.Is", "load.go:EventsLoader.LoadAndVerify", "load.go:SignatureErr.Error", "load.go:SignatureErr.Is", "load.go:.NewEventsLoader", "stateresolution.go:.ResolveConflicts", "stateresolution.go:.ResolveConflictsNew", "stateresolution.go:.ResolveStateConflicts", "stateresolution.go:.sortConflictedEventsByDepthAndSHA1", "stateresolution.go:.splitConflictedUnconflicted", "stateresolution.go:conflictedEventSorter.Len", "stateresolution.go:conflictedEventSorter.Less", "stateresolution.go:conflictedEventSorter.Swap", "stateresolution.go:stateResolver.Create", "stateresolution.go:stateResolver.JoinRules", "stateresolution.go:stateResolver.Member", "stateresolution.go:stateResolver.PowerLevels", "stateresolution.go:stateResolver.ThirdPartyInvite", "stateresolution.go:stateResolver.Valid", "stateresolution.go:stateResolver.addAuthEvent", "stateresolution.go:stateResolver.addConflicted", "stateresolution.go:stateResolver.authEventAt", "stateresolution.go:stateResolver.removeAuthEvent", "stateresolution.go:stateResolver.resolveAndAddAuthBlocks", "stateresolution.go:stateResolver.resolveAuthBlock", "stateresolution.go:stateResolver.resolveNormalBlock", "stateresolutionv2.go:.HeaderedReverseTopologicalOrdering", "stateresolutionv2.go:.ResolveStateConflictsV2", "stateresolutionv2.go:.ResolveStateConflictsV2New", "stateresolutionv2.go:.ReverseTopologicalOrdering", "stateresolutionv2.go:.creatorsFromCreateEventOrNone", "stateresolutionv2.go:.eventMapFromEvents", "stateresolutionv2.go:.getCreateEvent", "stateresolutionv2.go:.isControlEvent", "stateresolutionv2.go:.kahnsAlgorithmUsingAuthEvents", "stateresolutionv2.go:.kahnsAlgorithmUsingPrevEvents", "stateresolutionv2.go:.newPDUSet", "stateresolutionv2.go:stateResolverV2.applyEvents", "stateresolutionv2.go:stateResolverV2.authAndApplyEvents", "stateresolutionv2.go:stateResolverV2.calculateAuthDifference", "stateresolutionv2.go:stateResolverV2.calculateAuthDifferenceNew", "stateresolutionv2.go:stateResolverV2.calculateFullAuthChainAndConflictedSubgraph", "stateresolutionv2.go:stateResolverV2.createPowerLevelMainline", "stateresolutionv2.go:stateResolverV2.getFirstPowerLevelMainlineEvent", "stateresolutionv2.go:stateResolverV2.getPowerLevelFromAuthEvents", "stateresolutionv2.go:stateResolverV2.mainlineOrdering", "stateresolutionv2.go:stateResolverV2.reverseTopologicalOrdering", "stateresolutionv2.go:stateResolverV2.wrapOtherEventsForSort", "stateresolutionv2.go:stateResolverV2.wrapPowerLevelEventsForSort", "stateresolutionv2heaps.go:.sortStateResV2ConflictedOtherHeap", "stateresolutionv2heaps.go:.sortStateResV2ConflictedPowerLevelHeap", "stateresolutionv2heaps.go:stateResV2ConflictedOtherHeap.Pop", "stateresolutionv2heaps.go:stateResV2ConflictedOtherHeap.Push", "stateresolutionv2heaps.go:stateResV2ConflictedPowerLevelHeap.Pop", "stateresolutionv2heaps.go:stateResV2ConflictedPowerLevelHeap.Push"]
+def stateresolutionv2heaps_type_stateResV2ConflictedOther : List String := [
+  "type stateResV2ConflictedOther struct { mainlinePosition int mainlineSteps int originServerTS spec.Timestamp eventID string event PDU }"
+]
+
+def stateresolutionv2heaps_type_stateResV2ConflictedOtherHeap : List String := [
+  "type stateResV2ConflictedOtherHeap []*stateResV2ConflictedOther"
+]
+
+def stateresolutionv2heaps_type_stateResV2ConflictedPowerLevel : List String := [
+  "type stateResV2ConflictedPowerLevel struct { powerLevel int64 originServerTS spec.Timestamp eventID string event PDU }"
+]
+
+def stateresolutionv2heaps_type_stateResV2ConflictedPowerLevelHeap : List String := [
+  "type stateResV2ConflictedPowerLevelHeap []*stateResV2ConflictedPowerLevel"
+]
+
+def functions : List String := ["authstate.go:FederatedStateProvider.StateBeforeEvent", "authstate.go:FederatedStateProvider.StateIDsBeforeEvent", "authstate.go:.CheckSendJoinResponse", "authstate.go:.CheckStateResponse", "authstate.go:.LineariseStateResponse", "authstate.go:.VerifyAuthRulesAtState", "authstate.go:.checkAllowedByAuthEvents", "authstate.go:stateResponseImpl.GetAuthEvents", "authstate.go:stateResponseImpl.GetStateEvents", "authstate.go:type FederatedStateClient", "authstate.go:type FederatedStateProvider", "authstate.go:type StateIDResponse", "authstate.go:type StateProvider", "authstate.go:type StateResponse", "authstate.go:type stateResponseImpl", "backfill.go:.RequestBackfill", "backfill.go:type BackfillClient", "backfill.go:type BackfillRequester", "load.go:AuthChainErr.Error", "load.go:AuthChainErr.Is", "load.go:AuthRulesErr.Error", "load.go:AuthRulesErr.Is", "load.go:EventsLoader.LoadAndVerify", "load.go:SignatureErr.Error", "load.go:SignatureErr.Is", "load.go:.NewEventsLoader", "load.go:type AuthChainErr", "load.go:type AuthRulesErr", "load.go:type EventLoadResult", "load.go:type EventsLoader", "load.go:type SignatureErr", "stateresolution.go:.ResolveConflicts", "stateresolution.go:.ResolveConflictsNew", "stateresolution.go:.ResolveStateConflicts", "stateresolution.go:.sortConflictedEventsByDepthAndSHA1", "stateresolution.go:.splitConflictedUnconflicted", "stateresolution.go:conflictedEventSorter.Len", "stateresolution.go:conflictedEventSorter.Less", "stateresolution.go:conflictedEventSorter.Swap", "stateresolution.go:stateResolver.Create", "stateresolution.go:stateResolver.JoinRules", "stateresolution.go:stateResolver.Member", "stateresolution.go:stateResolver.PowerLevels", "stateresolution.go:stateResolver.ThirdPartyInvite", "stateresolution.go:stateResolver.Valid", "stateresolution.go:stateResolver.addAuthEvent", "stateresolution.go:stateResolver.addConflicted", "stateresolution.go:stateResolver.authEventAt", "stateresolution.go:stateResolver.removeAuthEvent", "stateresolution.go:stateResolver.resolveAndAddAuthBlocks", "stateresolution.go:stateResolver.resolveAuthBlock", "stateresolution.go:stateResolver.resolveNormalBlock", "stateresolution.go:type conflictedEvent", "stateresolution.go:type conflictedEventSorter", "stateresolution.go:type stateResolver", "stateresolutionv2.go:.HeaderedReverseTopologicalOrdering", "stateresolutionv2.go:.ResolveStateConflictsV2", "stateresolutionv2.go:.ResolveStateConflictsV2New", "stateresolutionv2.go:.ReverseTopologicalOrdering", "stateresolutionv2.go:.creatorsFromCreateEventOrNone", "stateresolutionv2.go:.eventMapFromEvents", "stateresolutionv2.go:.getCreateEvent", "stateresolutionv2.go:.isControlEvent", "stateresolutionv2.go:.kahnsAlgorithmUsingAuthEvents", "stateresolutionv2.go:.kahnsAlgorithmUsingPrevEvents", "stateresolutionv2.go:.newPDUSet", "stateresolutionv2.go:stateResolverV2.applyEvents", "stateresolutionv2.go:stateResolverV2.authAndApplyEvents", "stateresolutionv2.go:stateResolverV2.calculateAuthDifference", "stateresolutionv2.go:stateResolverV2.calculateAuthDifferenceNew", "stateresolutionv2.go:stateResolverV2.calculateFullAuthChainAndConflictedSubgraph", "stateresolutionv2.go:stateResolverV2.createPowerLevelMainline", "stateresolutionv2.go:stateResolverV2.getFirstPowerLevelMainlineEvent", "stateresolutionv2.go:stateResolverV2.getPowerLevelFromAuthEvents", "stateresolutionv2.go:stateResolverV2.mainlineOrdering", "stateresolutionv2.go:stateResolverV2.reverseTopologicalOrdering", "stateresolutionv2.go:stateResolverV2.wrapOtherEventsForSort", "stateresolutionv2.go:stateResolverV2.wrapPowerLevelEventsForSort", "stateresolutionv2.go:type IsRejected", "stateresolutionv2.go:type TopologicalOrder", "stateresolutionv2.go:type stateResolverV2", "stateresolutionv2heaps.go:.sortStateResV2ConflictedOtherHeap", "stateresolutionv2heaps.go:.sortStateResV2ConflictedPowerLevelHeap", "stateresolutionv2heaps.go:stateResV2ConflictedOtherHeap.Pop", "stateresolutionv2heaps.go:stateResV2ConflictedOtherHeap.Push", "stateresolutionv2heaps.go:stateResV2ConflictedPowerLevelHeap.Pop", "stateresolutionv2heaps.go:stateResV2ConflictedPowerLevelHeap.Push", "stateresolutionv2heaps.go:type stateResV2ConflictedOther", "stateresolutionv2heaps.go:type stateResV2ConflictedOtherHeap", "stateresolutionv2heaps.go:type stateResV2ConflictedPowerLevel", "stateresolutionv2heaps.go:type stateResV2ConflictedPowerLevelHeap"]
 
 end VPins.C11
